@@ -74,4 +74,36 @@ def unpickle (s : Session) (p : Pickled) : Session × Obj :=
       let o' : Obj := { o with vals := setMissing o.vals p.d }
       (s.map (fun x => if x.pk == p.pk then o' else x), o')
 
+/-! ### pickling a query result (`QueryResult.__getstate__` / `_get_items`, `Query.__reduce__`), as written:
+
+      def _get_items(self):
+          if self._items is None: self._items = self._query._actual_fetch(self._limit, self._offset)
+          return self._items
+      def __getstate__(self): return self._get_items(), self._limit, self._offset, self._expr_type, self._col_names
+
+    `full` is the complete ordered result of the query; a result object either has not fetched yet (`items = none`: lazy
+    results of `page` / `limit`) or holds what an earlier fetch of ITS window returned. -/
+
+/-- SQL `LIMIT l OFFSET o` on the ordered result (`none` = unbounded / 0) — the window `_actual_fetch(limit, offset)` returns -/
+def fetchWindow (limit offset : Option Nat) (full : List α) : List α :=
+  let d := full.drop (offset.getD 0)
+  match limit with
+  | none => d
+  | some l => d.take l
+
+structure QResult (α : Type) where
+  limit : Option Nat
+  offset : Option Nat
+  items : Option (List α)
+
+/-- the rows `__getstate__` puts into the pickle -/
+def getstateRows (full : List α) (r : QResult α) : List α :=
+  match r.items with
+  | some l => l
+  | none => fetchWindow r.limit r.offset full
+
+/-- a result object as the API hands it out for the query: lazy, or materialised by fetching its own window -/
+def QResult.wellFormed (full : List α) (r : QResult α) : Prop :=
+  r.items = none ∨ r.items = some (fetchWindow r.limit r.offset full)
+
 end PonyVerif.Model.Pickle
